@@ -15,8 +15,11 @@ package sync
 import (
 	"fmt"
 	"go/ast"
+	"go/constant"
+	"go/importer"
 	"go/parser"
 	"go/token"
+	"go/types"
 	"os"
 	"path/filepath"
 	"runtime"
@@ -108,7 +111,14 @@ func c08Operand(s string, params []c08Param) (string, error) {
 }
 
 // c08ParseAsm turns the body of TEXT ·fn(SB) into Lean `Instr` terms (labels resolved).
-func c08ParseAsm(src, fn string, params []c08Param) (lean, text []string, frame string, err error) {
+// c08Ins is one parsed instruction: `term` is the Lean constructor application without the jump
+// target; kind is "plain", "jz", "jnz", "jmp" or "ret"; target is a raw instruction index.
+type c08Ins struct {
+	term, text, kind string
+	target           int
+}
+
+func c08ParseAsm(src, fn string, params []c08Param) (prog []c08Ins, frame string, err error) {
 	type raw struct {
 		mn   string
 		args []string
@@ -148,7 +158,7 @@ func c08ParseAsm(src, fn string, params []c08Param) (lean, text []string, frame 
 		if strings.HasSuffix(line, ":") && !strings.ContainsAny(line, " \t,") {
 			l := strings.TrimSuffix(line, ":")
 			if _, dup := labels[l]; dup {
-				return nil, nil, "", fmt.Errorf("duplicate label %q", l)
+				return nil, "", fmt.Errorf("duplicate label %q", l)
 			}
 			labels[l] = len(ins)
 			continue
@@ -156,7 +166,7 @@ func c08ParseAsm(src, fn string, params []c08Param) (lean, text []string, frame 
 		f := strings.Fields(line)
 		if f[0] == "LOCK" && len(f) == 1 {
 			if lockNext {
-				return nil, nil, "", fmt.Errorf("LOCK LOCK")
+				return nil, "", fmt.Errorf("LOCK LOCK")
 			}
 			lockNext = true
 			continue
@@ -175,18 +185,18 @@ func c08ParseAsm(src, fn string, params []c08Param) (lean, text []string, frame 
 		ins = append(ins, r)
 	}
 	if lockNext {
-		return nil, nil, "", fmt.Errorf("dangling LOCK prefix")
+		return nil, "", fmt.Errorf("dangling LOCK prefix")
 	}
 	if len(ins) == 0 {
-		return nil, nil, "", fmt.Errorf("TEXT ·%s(SB) not found or empty", fn)
+		return nil, "", fmt.Errorf("TEXT ·%s(SB) not found or empty", fn)
 	}
 	for i, r := range ins {
 		m, ok := c08Mnemonics[r.mn]
 		if !ok {
-			return nil, nil, "", fmt.Errorf("instruction %d: unknown mnemonic %q in %q", i, r.mn, r.line)
+			return nil, "", fmt.Errorf("instruction %d: unknown mnemonic %q in %q", i, r.mn, r.line)
 		}
 		if len(r.args) != m.n {
-			return nil, nil, "", fmt.Errorf("instruction %d: %q expects %d operands", i, r.line, m.n)
+			return nil, "", fmt.Errorf("instruction %d: %q expects %d operands", i, r.line, m.n)
 		}
 		term := "." + m.ctor
 		isMem := func(a string) bool {
@@ -196,31 +206,176 @@ func c08ParseAsm(src, fn string, params []c08Param) (lean, text []string, frame 
 		case m.rmw:
 			term += fmt.Sprintf(" %v", r.lock)
 			if r.lock && !isMem(r.args[len(r.args)-1]) {
-				return nil, nil, "", fmt.Errorf("instruction %d: LOCK prefix on %q without a memory destination", i, r.line)
+				return nil, "", fmt.Errorf("instruction %d: LOCK prefix on %q without a memory destination", i, r.line)
 			}
 		case r.lock && !(m.ctor == "xchgl" && (isMem(r.args[0]) || isMem(r.args[1]))):
-			return nil, nil, "", fmt.Errorf("instruction %d: LOCK prefix on %q is not modelled", i, r.line)
+			return nil, "", fmt.Errorf("instruction %d: LOCK prefix on %q is not modelled", i, r.line)
+		}
+		in := c08Ins{text: r.line, kind: "plain"}
+		if m.ctor == "ret" {
+			in.kind = "ret"
 		}
 		if m.jump {
 			t, ok := labels[r.args[0]]
 			if !ok {
-				return nil, nil, "", fmt.Errorf("instruction %d: unknown label in %q", i, r.line)
+				return nil, "", fmt.Errorf("instruction %d: unknown label in %q", i, r.line)
 			}
-			term += fmt.Sprintf(" %d", t)
+			in.kind, in.target = m.ctor, t
 		} else {
 			for _, a := range r.args {
 				o, err := c08Operand(a, params)
 				if err != nil {
-					return nil, nil, "", fmt.Errorf("instruction %d (%s): %v", i, r.line, err)
+					return nil, "", fmt.Errorf("instruction %d (%s): %v", i, r.line, err)
 				}
 				term += " " + o
 			}
 		}
-		lean = append(lean, term)
-		text = append(text, r.line)
+		in.term = term
+		prog = append(prog, in)
 	}
-	return lean, text, frame, nil
+	return prog, frame, nil
 }
+
+// c08Canon re-linearises the program in a layout-independent order so that the pc-indexed Lean
+// proofs see the same instruction list for every block layout / jump polarity of the same control
+// flow graph.  Basic blocks; conditional edges normalised to (successor if ZF, successor if not ZF);
+// blocks that only jump are threaded away; depth-first from the entry, placing at a conditional the
+// Z successor as fall-through — unless the NZ successor is a straight block leading into the Z
+// successor, which then comes first — and emitting explicit jumps only to blocks already placed.
+// Returns the canonical program (jump targets = canonical indices) and, per canonical instruction,
+// the raw index it stands for (checked in Lean: Props/C08.canonical_program_is_source_program).
+func c08Canon(raw []c08Ins) (canon []c08Ins, origin []int, err error) {
+	n := len(raw)
+	leader := make([]bool, n+1)
+	leader[0] = true
+	for i, in := range raw {
+		if in.kind != "plain" {
+			leader[i+1] = true
+			if in.kind != "ret" {
+				if in.target < 0 || in.target >= n {
+					return nil, nil, fmt.Errorf("jump target out of range in %q", in.text)
+				}
+				leader[in.target] = true
+			}
+		}
+	}
+	type block struct {
+		body         []int // raw indices of plain instructions
+		term         string
+		termIdx      int // raw index of the terminating jz/jnz/ret (or -1)
+		z, nz, next  int // successor blocks (leader indices)
+	}
+	blocks := map[int]*block{}
+	for i := 0; i < n; i++ {
+		if !leader[i] {
+			continue
+		}
+		b := &block{termIdx: -1}
+		j := i
+		for j < n && raw[j].kind == "plain" && (j == i || !leader[j]) {
+			b.body = append(b.body, j)
+			j++
+		}
+		switch {
+		case j >= n:
+			return nil, nil, fmt.Errorf("control falls off the end of the function")
+		case j > i && leader[j]:
+			b.term, b.next = "goto", j // the next instruction starts another block
+		case raw[j].kind == "ret":
+			b.term, b.termIdx = "ret", j
+		case raw[j].kind == "jmp":
+			b.term, b.next = "goto", raw[j].target
+		case j+1 >= n:
+			return nil, nil, fmt.Errorf("control falls off the end of the function")
+		case raw[j].kind == "jz":
+			b.term, b.termIdx, b.z, b.nz = "cond", j, raw[j].target, j+1
+		case raw[j].kind == "jnz":
+			b.term, b.termIdx, b.z, b.nz = "cond", j, j+1, raw[j].target
+		}
+		blocks[i] = b
+	}
+	// thread blocks that consist of a jump only
+	var resolve func(b int, depth int) int
+	resolve = func(b int, depth int) int {
+		if blk := blocks[b]; blk != nil && len(blk.body) == 0 && blk.term == "goto" && depth < n+1 {
+			return resolve(blk.next, depth+1)
+		}
+		return b
+	}
+	for _, b := range blocks {
+		b.z, b.nz, b.next = resolve(b.z, 0), resolve(b.nz, 0), resolve(b.next, 0)
+		if b.term == "cond" && b.z == b.nz {
+			b.term, b.next = "goto", b.z
+		}
+	}
+	type item struct {
+		ins    c08Ins
+		origin int
+		tblock int // target block of a jump (-1 otherwise)
+	}
+	var out []item
+	start := map[int]int{}
+	straightInto := func(a, b int) bool {
+		return a != b && blocks[a].term == "goto" && blocks[a].next == b
+	}
+	var place func(b int)
+	place = func(b int) {
+		if _, done := start[b]; done {
+			return
+		}
+		start[b] = len(out)
+		blk := blocks[b]
+		for _, i := range blk.body {
+			out = append(out, item{raw[i], i, -1})
+		}
+		jump := func(kind string, to, origin int) {
+			out = append(out, item{c08Ins{term: "." + kind, text: strings.ToUpper(kind) + " ", kind: kind}, origin, to})
+		}
+		placed := func(x int) bool { _, ok := start[x]; return ok }
+		switch blk.term {
+		case "ret":
+			out = append(out, item{raw[blk.termIdx], blk.termIdx, -1})
+		case "goto":
+			if placed(blk.next) {
+				jump("jmp", blk.next, -1)
+			} else {
+				place(blk.next)
+			}
+		case "cond":
+			first, second := blk.z, blk.nz
+			switch {
+			case placed(blk.z) && placed(blk.nz):
+				jump("jz", blk.z, blk.termIdx)
+				jump("jmp", blk.nz, -1)
+				return
+			case placed(blk.z):
+				first, second = blk.nz, blk.z
+			case placed(blk.nz):
+			case straightInto(blk.nz, blk.z):
+				first, second = blk.nz, blk.z
+			}
+			if second == blk.z {
+				jump("jz", second, blk.termIdx)
+			} else {
+				jump("jnz", second, blk.termIdx)
+			}
+			place(first)
+			place(second)
+		}
+	}
+	place(resolve(0, 0))
+	for _, it := range out {
+		in := it.ins
+		if it.tblock >= 0 {
+			in.target = start[it.tblock]
+			in.text += fmt.Sprintf("@%d", in.target)
+		}
+		canon = append(canon, in)
+		origin = append(origin, it.origin)
+	}
+	return canon, origin, nil
+}
+
 
 func c08TypeSize(e ast.Expr) (int, string, error) {
 	switch t := e.(type) {
@@ -241,17 +396,33 @@ func c08TypeSize(e ast.Expr) (int, string, error) {
 
 // c08GoBody translates a method body into the atomic-op IR; every statement must be one of the
 // known shapes and the only location touched must be &recv.state.
-func c08GoBody(fd *ast.FuncDecl, atomicName string) ([]string, error) {
+func c08GoBody(fd *ast.FuncDecl, atomicName string, info *types.Info) ([]string, error) {
 	if fd.Recv == nil || len(fd.Recv.List) != 1 || len(fd.Recv.List[0].Names) != 1 {
 		return nil, fmt.Errorf("%s: no named receiver", fd.Name.Name)
 	}
 	recv := fd.Recv.List[0].Names[0].Name
+	// an integer constant expression (a literal, a named package-level constant, a conversion or
+	// arithmetic over them): resolved to its value by go/types, so `lockHeld` and `1` give the
+	// same fact
 	lit := func(e ast.Expr) (uint64, error) {
-		b, ok := e.(*ast.BasicLit)
-		if !ok || b.Kind != token.INT {
-			return 0, fmt.Errorf("%s: expected integer literal, found %T", fd.Name.Name, e)
+		if tv, ok := info.Types[e]; ok && tv.Value != nil && tv.Value.Kind() == constant.Int {
+			if v, exact := constant.Uint64Val(tv.Value); exact && v < 1<<32 {
+				return v, nil
+			}
 		}
-		return strconv.ParseUint(b.Value, 0, 32)
+		return 0, fmt.Errorf("%s: expected a 32-bit integer constant, found %T", fd.Name.Name, e)
+	}
+	// a local bound once by `x := <atomic read>` and used once, in the return that follows, stands
+	// for the value of that read (`tmp` of the IR)
+	var tmpLocal types.Object
+	uses := func(obj types.Object) int {
+		n := 0
+		for _, o := range info.Uses {
+			if o == obj {
+				n++
+			}
+		}
+		return n
 	}
 	isState := func(e ast.Expr) bool {
 		u, ok := e.(*ast.UnaryExpr)
@@ -311,6 +482,25 @@ func c08GoBody(fd *ast.FuncDecl, atomicName string) ([]string, error) {
 				return nil, err
 			}
 			ops = append(ops, op)
+			tmpLocal = nil
+		case *ast.AssignStmt:
+			var name *ast.Ident
+			if len(s.Lhs) == 1 {
+				name, _ = s.Lhs[0].(*ast.Ident)
+			}
+			if name == nil || s.Tok != token.DEFINE || len(s.Rhs) != 1 {
+				return nil, fmt.Errorf("%s: unsupported assignment", fd.Name.Name)
+			}
+			op, produces, err := call(s.Rhs[0])
+			if err != nil {
+				return nil, err
+			}
+			obj := info.Defs[name]
+			if !produces || obj == nil || uses(obj) != 1 {
+				return nil, fmt.Errorf("%s: local %s must hold the result of one atomic read and be used exactly once", fd.Name.Name, name.Name)
+			}
+			ops = append(ops, op)
+			tmpLocal = obj
 		case *ast.ReturnStmt:
 			returned = true
 			if len(s.Results) == 0 {
@@ -327,18 +517,29 @@ func c08GoBody(fd *ast.FuncDecl, atomicName string) ([]string, error) {
 				}
 				return nil, fmt.Errorf("%s: unsupported return expression", fd.Name.Name)
 			}
-			op, produces, err := call(b.X)
+			x, y := b.X, b.Y
+			if _, err := lit(x); err == nil { // constant on the left: == and != are symmetric
+				x, y = y, x
+			}
+			v, err := lit(y)
 			if err != nil {
 				return nil, err
 			}
-			if !produces {
-				return nil, fmt.Errorf("%s: compared call has no result", fd.Name.Name)
+			if id, isId := x.(*ast.Ident); isId {
+				// the local that holds the last atomic read
+				if tmpLocal == nil || info.Uses[id] != tmpLocal {
+					return nil, fmt.Errorf("%s: %s is not the result of the immediately preceding atomic read", fd.Name.Name, id.Name)
+				}
+			} else {
+				op, produces, err := call(x)
+				if err != nil {
+					return nil, err
+				}
+				if !produces {
+					return nil, fmt.Errorf("%s: compared call has no result", fd.Name.Name)
+				}
+				ops = append(ops, op)
 			}
-			v, err := lit(b.Y)
-			if err != nil {
-				return nil, err
-			}
-			ops = append(ops, op)
 			if b.Op == token.EQL {
 				ops = append(ops, fmt.Sprintf(".retEq %d", v))
 			} else {
@@ -374,6 +575,28 @@ func c08Facts() (string, error) {
 			}
 		}
 	}
+	// type-check package sync (non-test files) so that constant expressions resolve to values
+	var files []*ast.File
+	ents, err := os.ReadDir(dir)
+	if err != nil {
+		return "", err
+	}
+	for _, e := range ents {
+		if n := e.Name(); strings.HasSuffix(n, ".go") && !strings.HasSuffix(n, "_test.go") {
+			f := gf
+			if n != "spinlock.go" {
+				if f, err = parser.ParseFile(fset, filepath.Join(dir, n), nil, 0); err != nil {
+					return "", err
+				}
+			}
+			files = append(files, f)
+		}
+	}
+	info := &types.Info{Types: map[ast.Expr]types.TypeAndValue{}, Defs: map[*ast.Ident]types.Object{}, Uses: map[*ast.Ident]types.Object{}}
+	tconf := types.Config{Importer: importer.ForCompiler(fset, "source", nil), Error: func(error) {}}
+	if _, err := tconf.Check("sync", fset, files, info); err != nil {
+		return "", fmt.Errorf("package sync does not type-check: %v", err)
+	}
 	bodies := map[string][]string{}
 	var params []c08Param
 	haveState, haveYield := false, false
@@ -386,7 +609,7 @@ func c08Facts() (string, error) {
 				if id, ok2 := st.X.(*ast.Ident); !ok || !ok2 || id.Name != "Spinlock" {
 					return "", fmt.Errorf("%s: receiver is not *Spinlock", d.Name.Name)
 				}
-				if bodies[d.Name.Name], err = c08GoBody(d, atomicName); err != nil {
+				if bodies[d.Name.Name], err = c08GoBody(d, atomicName, info); err != nil {
 					return "", err
 				}
 			case d.Body == nil && d.Name.Name != "archAcquireSpinlock":
@@ -453,15 +676,49 @@ func c08Facts() (string, error) {
 			return "", fmt.Errorf("spinlock_amd64.s defines a new routine (%s): only archAcquireSpinlock is modelled", strings.Split(t, ",")[0])
 		}
 	}
-	lean, text, frame, err := c08ParseAsm(string(asm), "archAcquireSpinlock", params)
+	rawProg, frame, err := c08ParseAsm(string(asm), "archAcquireSpinlock", params)
 	if err != nil {
 		return "", err
+	}
+	canon, origin, err := c08Canon(rawProg)
+	if err != nil {
+		return "", err
+	}
+	termOf := func(in c08Ins) string {
+		if in.kind == "jz" || in.kind == "jnz" || in.kind == "jmp" {
+			return fmt.Sprintf(".%s %d", in.kind, in.target)
+		}
+		return in.term
+	}
+	var lean, text []string
+	for _, in := range canon {
+		lean = append(lean, termOf(in))
+		text = append(text, in.text)
 	}
 	var b strings.Builder
 	b.WriteString("-- GENERATED by ./check from kernel/sync/spinlock_amd64.s and spinlock.go (TestVerifFactsC08); do not edit.\n")
 	b.WriteString("import Firefly.Model.SpinIsa\nimport Firefly.Model.Locked\nnamespace Firefly.Gen.C08\nopen Firefly.Spin\n\n")
 	b.WriteString("/-- reasons why the source could not be translated (empty = the tie is intact) -/\ndef tieBroken : List String := []\n\n")
-	fmt.Fprintf(&b, "/-- TEXT ·archAcquireSpinlock(SB), frame %s -/\ndef acquireAsm : List Instr := [\n", frame)
+	fmt.Fprintf(&b, "/-- TEXT ·archAcquireSpinlock(SB), frame %s, in source order (jump targets = indices into this list) -/\ndef rawAsm : List Instr := [\n", frame)
+	for i, in := range rawProg {
+		sep := ","
+		if i == len(rawProg)-1 {
+			sep = ""
+		}
+		fmt.Fprintf(&b, "  /- %2d  %-34s -/ %s%s\n", i, in.text, termOf(in), sep)
+	}
+	b.WriteString("]\n\n/-- for every instruction of `acquireAsm`: the index in `rawAsm` it stands for (jumps inserted by the\nre-lineariser: 0, ignored) -/\ndef canonOrigin : List Nat := [")
+	for i, o := range origin {
+		if i > 0 {
+			b.WriteString(", ")
+		}
+		if o < 0 {
+			o = 0
+		}
+		fmt.Fprintf(&b, "%d", o)
+	}
+	b.WriteString("]\n\n")
+	b.WriteString("/-- the same control-flow graph re-linearised in canonical order (layout- and jump-polarity-independent);\nthis is the program the machine runs and the theorems are about -/\ndef acquireAsm : List Instr := [\n")
 	for i, l := range lean {
 		sep := ","
 		if i == len(lean)-1 {
@@ -501,7 +758,7 @@ func c08BrokenFacts(reason string) string {
 	b.WriteString("-- GENERATED by ./check (TestVerifFactsC08): THE SOURCE COULD NOT BE TRANSLATED — broken tie; do not edit.\n")
 	b.WriteString("import Firefly.Model.SpinIsa\nimport Firefly.Model.Locked\nnamespace Firefly.Gen.C08\nopen Firefly.Spin\n\n")
 	fmt.Fprintf(&b, "/-- reasons why the source could not be translated (empty = the tie is intact) -/\ndef tieBroken : List String := [%q]\n\n", reason)
-	b.WriteString("def acquireAsm : List Instr := []\ndef acquireAsmText : List String := []\ndef fpStateOff : Nat := 0\ndef fpAttemptsOff : Nat := 8\n")
+	b.WriteString("def rawAsm : List Instr := []\ndef canonOrigin : List Nat := []\ndef acquireAsm : List Instr := []\ndef acquireAsmText : List String := []\ndef fpStateOff : Nat := 0\ndef fpAttemptsOff : Nat := 8\n")
 	b.WriteString("def acquireGo : List GoOp := []\ndef tryGo : List GoOp := []\ndef releaseGo : List GoOp := []\n")
 	b.WriteString("def lockDecls : List String := []\ndef clients : List (String × Firefly.Locked.Skel) := []\n")
 	b.WriteString("\nend Firefly.Gen.C08\n")
@@ -781,18 +1038,28 @@ func TestVerifC08(t *testing.T) {
 	rng := &vrng{s: verifSeed()}
 	n := verifN(300)
 	thorough := os.Getenv("VERIF_TIER") == "thorough"
+	// the runner's "targeted search" re-runs the thorough generators after a broken proof / tie; it
+	// looks for a failing input, so it gets twice the quick work instead of the full thorough budget
+	searchRun := strings.Contains(filepath.Base(os.Getenv("VERIF_OUT")), "-search")
 	watchdog := time.Duration(verifEnvInt("VERIF_WATCHDOG_S", 120)) * time.Second
 	if _, err := c08Facts(); err != nil {
 		c08TieBroken = true
 		out.printf("# tie broken: %s\n", strings.ReplaceAll(err.Error(), "\n", " "))
 	}
+	// tell the client harness (extra run in package pmm, started after this one) that the run is
+	// already failing, so that it does not wait out a hang for the full watchdog period either
+	defer func() {
+		if dir := os.Getenv("VERIF_BUILD"); dir != "" && (c08TieBroken || atomic.LoadInt32(&c08Suspect) != 0) {
+			os.WriteFile(filepath.Join(dir, "c08-suspect"), []byte("1\n"), 0o644)
+		}
+	}()
 	var tick int64
 
 	// model exploration requests (the driver runs a breadth-first search of the regenerated model)
 	out.printf("case search\n")
 	out.printf("search 2 | ok\n")
 	out.printf("search 3 | ok\n")
-	if thorough {
+	if thorough && !searchRun {
 		out.printf("search 4 | ok\n")
 	}
 	out.w.Flush()
@@ -900,6 +1167,9 @@ wait:
 	reps := 1
 	if thorough {
 		iters, reps = iters*8, 6
+	}
+	if searchRun {
+		iters, reps = iters/4, 2
 	}
 	round := 0
 	for rep := 0; rep < reps; rep++ {
